@@ -20,9 +20,9 @@ fails = [l for l in out_t.splitlines() if l.startswith("--- FAIL") and "TestRule
 for f in demo_files: os.rename(os.path.join(wt, f + ".aside"), os.path.join(wt, f))
 print("existing tests: rc", rc_t, "unexpected fails:", fails)
 rc1, out1 = sh(["go", "test", "-vet=off", "-count=1"] + demo, timeout=1500); print("demo WITH change rc", rc1)
-sh(["git", "stash"])
+sh(["git", "apply", "-R", "patch.diff"])   # (git stash is shared between worktrees: do not use it)
 rc2, out2 = sh(["go", "test", "-vet=off", "-count=1"] + demo, timeout=1500); print("demo WITHOUT change rc", rc2)
-sh(["git", "stash", "pop"])
+sh(["git", "apply", "patch.diff"])
 ok = rc_b == 0 and not fails and rc1 != 0 and rc2 == 0
 print("CONFIRMED" if ok else "NOT CONFIRMED")
 if ok:
